@@ -43,6 +43,9 @@ pub enum Promise {
     MonoValue,
     /// keys never disappear and a key's value never changes once present.
     BoundedValue,
+    /// the promise is read from the collection's type at staging time and travels with every
+    /// observed entry `(code, k, v)`: 0 nothing, 1 MonotonicKeys, 2 MonotonicValue
+    Typed,
 }
 
 #[derive(Clone, Debug, Serialize, Deserialize)]
